@@ -60,14 +60,15 @@ def generate(seed, profile):
     n = w.rng('len').randint(*profile.nops)
     ops = []
     for _ in range(n):
-        op = g.gen()
-        if op is None:
+        got = g.gen()
+        if got is None:
             continue
-        if not M.valid(model, op):
-            continue
-        op['dt'] = draw_dt(renv)
-        model.apply(op)
-        ops.append(op)
+        for op in (got if isinstance(got, list) else [got]):
+            if not M.valid(model, op):
+                continue
+            op['dt'] = draw_dt(renv)
+            model.apply(op)
+            ops.append(op)
     if profile.final_restart and (not ops or ops[-1]['op'] != 'restart'):
         ops.append({'op': 'restart', 'dt': draw_dt(renv)})
     plan = {'seed': seed, 'profile': profile.name, 'cfg': cfg, 'env': w.env_record(),
@@ -134,6 +135,21 @@ class Oracle:
     def on_end(self, ctx):
         pass
 
+    def doomed_applicable(self, ctx, op):
+        """A doomed call is applied only where its cause is the *only* thing wrong with it:
+        'valid_otherwise' ops (bad name, bad parameter) must pass the structural validity
+        check; the others (duplicate, missing parent, wrong type, ...) must fail it."""
+        plain = {k: v for k, v in op.items() if k not in ('expect', 'cause', 'valid_otherwise')}
+        if op.get('valid_otherwise'):
+            return M.valid(ctx.model, plain)
+        return not M.valid(ctx.model, plain)
+
+    def on_doomed(self, ctx, op, out):
+        if out.ok:
+            # the implementation accepted a call the documented rules refuse; the model cannot follow
+            ctx.status = 'inconclusive'
+            ctx.note = 'doomed op accepted: %s' % op.get('cause')
+
     # how to treat an exception out of a model-valid edit
     def on_edit_refused(self, ctx, op, out):
         ctx.status = 'inconclusive'
@@ -195,6 +211,17 @@ def execute(plan, oracle):
             for op in plan['ops']:
                 if ctx.status != 'ok':
                     break
+                if op.get('expect') == 'refuse':
+                    # a doomed call: must be invalid in the current model state, else it is skipped
+                    if oracle.doomed_applicable(ctx, op):
+                        w.clock.advance(op.get('dt', 0.0))
+                        out = d.apply_doomed(op)
+                        ctx.event('doomed', op['op'], out.ok, out.etype)
+                        ctx.stats['doomed:%s:%s' % (op.get('cause', '?'), 'refused' if not out.ok else 'ACCEPTED')] += 1
+                        oracle.on_doomed(ctx, op, out)
+                    else:
+                        ctx.stats['skipped_doomed_not_applicable'] += 1
+                    continue
                 if not M.valid(d.model, op):
                     ctx.stats['skipped_invalid'] += 1
                     continue
